@@ -204,9 +204,9 @@ theorem header_current_ok : validateClass "common.Header" [(lit "version", .str 
 theorem versionTuple_current : versionTuple (.str currentVersion) = .ok (.nums [Gen.VERSION.1, Gen.VERSION.2]) := by
   decide +kernel
 theorem top_ok (k : Kind) : validateClass k.className [] = .ok () := by cases k <;> decide +kernel
-theorem gate_header : lexLe headerTypeGate [Gen.VERSION.1, Gen.VERSION.2] = true := by decide
-theorem gate_rpms : lexLe [Gen.VERSION.1, Gen.VERSION.2] rpmsLegacyGate = false := by decide
-theorem gate_compose : lexLt [Gen.VERSION.1, Gen.VERSION.2] composeLegacyGate = false := by decide
+theorem gate_header : gateHolds Gen.GATE_Header_deserialize [Gen.VERSION.1, Gen.VERSION.2] = true := by decide
+theorem gate_rpms : gateHolds Gen.GATE_Rpms_deserialize [Gen.VERSION.1, Gen.VERSION.2] = false := by decide
+theorem gate_compose : gateHolds Gen.GATE_Compose_deserialize [Gen.VERSION.1, Gen.VERSION.2] = false := by decide
 
 theorem composeSerialize_toObj (c : ComposeT) (hv : composeValidate c.toObj = .ok ()) :
     composeSerialize c.toObj = .ok (composeDoc c) := by
